@@ -150,7 +150,13 @@ def _spellings(case, out, stats):
                         out.fail("spellings of one element created other elements in c%d: %r" % (
                             c["id"], set(cells._impl.data) ^ keys0), X.case_json(case))
             with quiet():
-                cells.clear_all()
+                try:
+                    cells.clear_all()
+                except BaseException as e:      # noqa: BLE001
+                    # nothing but evaluations happened in this model: the cache and its bookkeeping disagree
+                    out.fail("c%d.clear_all() raised %r in a model in which elements were only evaluated" % (c["id"], e),
+                             X.case_json(case))
+                    break
     finally:
         impl.close()
 
